@@ -1,4 +1,5 @@
 CONSTANTS
+  MapDevs = {}
   Dev = {}
   MaxEntries = 3
 SPECIFICATION Spec
